@@ -340,7 +340,11 @@ def check(pid, tier):
     cfg = spec[tier]
     variants = tier_variants(spec, tier)
     want_fuzz = cfg.get("fuzz_secs", 0) > 0
-    bins = {v: build_prop(pid, v, want_fuzz=want_fuzz) for v in variants}
+    configure(); build_engines()
+    from concurrent.futures import ThreadPoolExecutor
+    with ThreadPoolExecutor(max(1, len(variants))) as ex:      # the build variants compile side by side
+        bins = dict(zip(variants, ex.map(lambda v: build_prop(pid, v, want_fuzz=want_fuzz), variants)))
+    vcfg = lambda v: {**cfg, **cfg.get("variant_cfg", {}).get(v, {})}      # per-variant overrides of rc_cases / rc_procs / enum
     work = os.path.join(BUILD, "work-%s-%s%s-%d" % (pid, tier, ALT_TAG, os.getpid()))
     shutil.rmtree(work, ignore_errors=True)
     os.makedirs(work)
@@ -383,21 +387,23 @@ def check(pid, tier):
 
     cmds = []
     # 2. enumerators
-    if info["has_enumerator"] and cfg.get("enum", True):
+    if info["has_enumerator"]:
         ns = cfg.get("enum_shards", 16)
         for v in variants:
+            if not vcfg(v).get("enum", True):
+                continue
             for s in range(ns):
                 rep = os.path.join(work, "enum-%s-%d.json" % (v, s))
                 cmds.append(("enum:%s:%d" % (v, s), [bins[v]["prop"], "enum", "--shard", str(s), "--nshards", str(ns), "--tier", "0" if tier == "quick" else "1",
                                                        "--report", rep, "--replay-out", os.path.join(work, "enum-%s-%d.case" % (v, s))], envbase))
     # 3. rapidcheck
-    nproc = cfg.get("rc_procs", 4)
     for v in variants:
+        nproc = vcfg(v).get("rc_procs", 4)
         for i in range(nproc):
             rep = os.path.join(work, "rc-%s-%d.json" % (v, i))
             rcseed = (seed * 1000003 + i * 7919 + 1) & 0x7FFFFFFFFFFFFFFF
             env = dict(envbase)
-            env["RC_PARAMS"] = "seed=%d max_success=%d max_size=%d" % (rcseed, cfg["rc_cases"], cfg.get("max_size", info["max_len"]))
+            env["RC_PARAMS"] = "seed=%d max_success=%d max_size=%d" % (rcseed, vcfg(v)["rc_cases"], cfg.get("max_size", info["max_len"]))
             cmds.append(("rc:%s:%d" % (v, i), [bins[v]["prop"], "rc", "--report", rep, "--replay-out", os.path.join(work, "rc-%s-%d.case" % (v, i))], env))
     results = run_parallel(cmds, cfg.get("budget_s", 3600))
 
